@@ -1,6 +1,20 @@
 ---- MODULE MCTypes ----
 EXTENDS Types
 Q(p, n) == [p |-> p, n |-> n]
+\* ---- the fixed skeleton of Types.tla is one instance of the general rules of TypesG.tla ----
+G == INSTANCE TypesG
+SlotSeq == <<"A0", "C1", "D2", "L1", "G1", "R1", "I2", "O2", "N1", "S0", "B0", "BS0">>
+SlotIdx(s) == CHOOSE k \in 1..Len(SlotSeq) : SlotSeq[k] = s
+K0 == [scopes |-> [k \in 1..Len(SlotSeq) |-> [parent |-> IF SlotParent(SlotSeq[k]) = "" THEN 0 ELSE SlotIdx(SlotParent(SlotSeq[k])),
+                                              root |-> SlotRoot(SlotSeq[k])]],
+       roots |-> << [name |-> "a", owner |-> "", pfx |-> "a", incs |-> <<"as">>, imps |-> <<[p |-> "b", mod |-> "b"]>>, top |-> SlotIdx("A0")],
+                    [name |-> "as", owner |-> "a", pfx |-> "a", incs |-> <<>>, imps |-> <<[p |-> "b", mod |-> "b"]>>, top |-> SlotIdx("S0")],
+                    [name |-> "b", owner |-> "", pfx |-> "b", incs |-> <<"bs">>, imps |-> <<>>, top |-> SlotIdx("B0")],
+                    [name |-> "bs", owner |-> "b", pfx |-> "b", incs |-> <<>>, imps |-> <<>>, top |-> SlotIdx("BS0")] >>]
+SkeletonAgrees ==
+  \A s \in Slots : \A r \in {Q("", "t"), Q("a", "t"), Q("b", "t"), Q("zz", "t")} :
+     LET c == SearchChain(s, r) IN [k \in 1..Len(c) |-> SlotIdx(c[k])] = G!GSearchChain(K0, SlotIdx(s), r)
+ASSUME SkeletonAgrees
 Td(slot, name, base, units, dflt, pat) == [slot |-> slot, name |-> name, base |-> base, units |-> units, dflt |-> dflt, pat |-> pat]
 NoLeaf == [units |-> "", dflt |-> "", pat |-> ""]
 Sites == {"ltop", "lc", "ld", "ll", "lg", "li", "lo", "ln", "ls", "la"}
